@@ -86,6 +86,9 @@ type c07Case struct {
 	// 4 = a negative label, 8 = (CBOR) a label that is neither int nor text;
 	// bits may be combined
 	Extra int `json:"extra_unknown_entries,omitempty"`
+	// KeyW (CBOR / COSE): the label 265 written with a longer head than needed
+	// (2, 4, 8 argument bytes) - the same label, spelt differently
+	KeyW int `json:"key265_head_width,omitempty"`
 	// EmptyName (JSON): an unknown member whose NAME is the empty string
 	EmptyName string `json:"member_with_empty_name,omitempty"`
 	// Empty: the claims-set with every claim absent ({} / a0)
@@ -224,7 +227,11 @@ func (c *c07Case) cborToken(withS2 bool) []byte {
 	if n := slotCBOR(c.S2); n != nil && withS2 {
 		// in the middle: dispatch must not depend on position
 		mid := len(ps) / 2
-		ps = append(append(append([][2]*icbor.Node{}, ps[:mid]...), icbor.P(icbor.U(265), n)), ps[mid:]...)
+		key := icbor.U(265)
+		if c.KeyW > 0 {
+			key = key.WithHead(c.KeyW)
+		}
+		ps = append(append(append([][2]*icbor.Node{}, ps[:mid]...), icbor.P(key, n)), ps[mid:]...)
 	}
 	return icbor.Encode(icbor.Map(ps...))
 }
@@ -634,6 +641,39 @@ func c07Check(c *c07Case) string {
 	if err == nil && r == nil || errv == nil && rv == nil {
 		return "decoder returned neither claims nor an error"
 	}
+	if c.KeyW > 0 && c.Format != "json" {
+		// the label 265 in a longer spelling: whether such a token is taken
+		// at all is open (C04), but IF it decodes, the entry was read as
+		// label 265 - the outcome is that of the shortest spelling
+		if err != nil {
+			return ""
+		}
+		cc := *c
+		cc.KeyW = 0
+		tokC := cc.cborToken(true)
+		if c.Format == "cose" {
+			kp := keyFor(icose.EdDSA, 0)
+			t, serr := icose.SignedToken(kp.Alg, kp.Priv, tokC)
+			if serr != nil {
+				return "VERIF-INFRA: " + serr.Error()
+			}
+			tokC = t
+		}
+		rC, errC := dec(tokC)
+		if errC != nil {
+			return fmt.Sprintf("a token whose label 265 is written with a %d-byte argument decodes as %T, the same token with the shortest spelling of the label is refused (%v)\n  token: %s", c.KeyW, r, errC, show())
+		}
+		if fmt.Sprintf("%T", r) != fmt.Sprintf("%T", rC) {
+			return fmt.Sprintf("a token whose label 265 is written with a %d-byte argument decodes as %T, with the shortest spelling as %T: the profile claim was not seen\n  token: %s", c.KeyW, r, rC, show())
+		}
+		if d := Observe(rC).Diff(Observe(r)); d != "" {
+			return fmt.Sprintf("a token whose label 265 is written with a %d-byte argument decodes differently from the shortest spelling: %s\n  token: %s", c.KeyW, d, show())
+		}
+		if _, errvC := decv(tokC); (errvC == nil) != (errv == nil) {
+			return fmt.Sprintf("decode-and-validate of a token whose label 265 is written with a %d-byte argument: %v; with the shortest spelling: %v\n  token: %s", c.KeyW, errv, errvC, show())
+		}
+		return ""
+	}
 	if errv == nil && err != nil {
 		return fmt.Sprintf("decode-and-validate accepts what the plain decoder rejects (%v)\n  token: %s", err, show())
 	}
@@ -837,6 +877,9 @@ func TestC07_Dispatch(t *testing.T) {
 			if c.Format != "json" && rapid.IntRange(0, 3).Draw(t, "extra.oddlabel") == 0 {
 				c.Extra |= 8
 			}
+		}
+		if c.Format != "json" && rapid.IntRange(0, 7).Draw(t, "key265.longhead") == 0 {
+			c.KeyW = rapid.SampledFrom([]int{4, 8, 2}).Draw(t, "key265.width")
 		}
 		if rapid.IntRange(0, 2).Draw(t, "ext.ts") == 0 {
 			ts := rapid.SampledFrom([]int64{0, 1, 1700000000, -1, -1700000000, 1 << 40, extTSNotInProfile, extTSOptionalish}).Draw(t, "ext.ts.val")
